@@ -2,7 +2,7 @@
    correspondence check.  Everything here is executed with vm_compute. *)
 From Coq Require Import ZArith List String Bool PrimFloat.
 From Hexital Require Import Base.Prelude Base.Num Base.PyFloat Model.Manager Model.Candle Model.Readings
-  Model.Analysis Model.Engine Inst.FloatInst.
+  Model.Analysis Model.Engine Inst.FloatInst Spec.Steppers.
 Import ListNotations.
 Local Open Scope Z_scope.
 
@@ -158,6 +158,18 @@ Definition check_ind (c : ind_case) : bool :=
     list_eqb store_matches tr exp_states && opt_eqb Z.eqb (option_map exn_code e) exp_err
   end.
 
+
+(* ---------------- recurrence specifications ---------------- *)
+Definition spec_case : Type := kind_s F * Z * list (inp F) * (list (val F) + Z).
+Definition check_spec (c : spec_case) : bool :=
+  let '(k, nd, cs, e) := c in
+  match series F k nd cs, e with
+  | Ok vs, inl exp => list_eqb val_eqb vs exp
+  | Err x, inr code => exn_code x =? code
+  | _, _ => false
+  end.
+Definition mkinp (o h l c v : pynum) (x : option pynum) : inp F := Build_inp F o h l c v x.
+
 End WithTable.
 
 Arguments mk_ohlcv {tbl}.
@@ -171,3 +183,4 @@ Arguments ICalculate {tbl}.
 Arguments IPurge {tbl}.
 Arguments IRecalculate {tbl}.
 Arguments ICalcIndex {tbl}.
+Arguments mkinp {tbl}.
